@@ -20,7 +20,7 @@ CHAIN = ['ccp', 'cse', 'lvn', 'dce']     # one round; every pass is applied to t
 FULL_CHAIN = CHAIN + CHAIN + ['ccp', 'dce', 'ccp']
 # the real driver through verif::run_function_rounds (hook 1b60883): [lvn only = Passes.pipeline true, cse + lvn]
 ROUNDS = ['rounds:lvn', 'rounds:lvn+cse']
-MODELLED = {'ccp': 'PCcp', 'dce': 'PDce', 'lvn': 'PLvn', 'cse': 'PCse', 'pipeline': 'PPipe'}
+MODELLED = {'ccp': 'PCcp', 'dce': 'PDce', 'lvn': 'PLvn', 'cse': 'PCse', 'pipeline': 'PPipe', 'pipeline+cse': 'PPipeCse'}
 HEADER = ('From Coq Require Import ZArith NArith List Bool. Import ListNotations.\n'
           'From SV Require Import Common.Int32 C02deep.Syntax C02deep.Sem C02deep.Passes C02deep.Corr.\n'
           'Open Scope Z_scope.\n')
@@ -110,7 +110,46 @@ def programs(tier, seed):
         progs.append(gen_program(r, {'big': i % 5 == 0, 'nfun': 5, 'depth': 2 + i % 2, 'loops': True, 'closures': False,
                                      'vec': False, 'strings': i % 7 == 3, 'interfaces': not loopy, 'loop_focus': loopy,
                                      'avoid_known_iv': False}))
+    # if-else expressions whose branches share subexpressions (what common subexpression elimination hoists)
+    rc = Rng(seed ^ 0xC5E)
+    for i in range(6 if tier == 'quick' else 60):
+        progs.append(cse_program(rc.fork()))
     return progs
+
+
+def cse_program(r):
+    """A program whose functions compute the same value at the top level of both branches of an if-else,
+    next to calls, other values, and nested if-else expressions."""
+    ops = ['+', '-', '*', '/', '%']
+    vars_ = ['a', 'b', 'c']
+
+    def atom():
+        return r.pick(vars_) if r.chance(2, 3) else str(r.pick([0, 1, 2, 3, 7, -1, 100]))
+
+    def shared():
+        return '%s %s %s' % (r.pick(vars_), r.pick(ops), atom())
+
+    def branch(sh, depth, tag):
+        # no named `let` (it lowers to a late-init declaration, outside the fragment): shared values are operands
+        pre = ''.join('let _ = Process.println("%s%d"); ' % (tag, k) for k in range(len(sh)) if r.chance(1, 3))
+        terms = ['(%s)' % e for e in sh]
+        if r.chance(1, 2):
+            terms.append('(%s %s %s)' % (atom(), r.pick(ops[:3]), atom()))
+        if depth > 0 and r.chance(1, 2):
+            sh2 = [r.pick(sh)] + ([shared()] if r.chance(1, 2) else [])
+            terms.append('(if %s < %s { %s } else { %s })' % (atom(), atom(), branch(sh2, depth - 1, tag + 't'), branch(sh2, depth - 1, tag + 'e')))
+        terms.append(str(r.range(0, 9)))
+        return pre + (' %s ' % r.pick(['+', '-', '*'])).join(terms)
+
+    funs = []
+    calls = []
+    for i in range(r.range(2, 4)):
+        sh = [shared() for _ in range(r.range(1, 3))]
+        body = 'if %s < %s { %s } else { %s }' % (atom(), atom(), branch(sh, 1, 't'), branch(sh, 1, 'e'))
+        funs.append('  function f%d(a: int, b: int, c: int): int = %s' % (i, body))
+        calls.append('let _ = Process.println(Str.fromInt(Main.f%d(x + %d, y - %d, %d)));' % (i, r.range(0, 5), r.range(0, 5), r.range(1, 9)))
+    main = '  function main(): unit = { let x = "%d".toInt(); let y = "%d".toInt(); %s }' % (r.range(-3, 9), r.range(1, 9), ' '.join(calls))
+    return {'sources': {'Main': 'class Main {\n%s\n%s\n}\n' % ('\n'.join(funs), main)}, 'entry': 'Main'}
 
 
 def dump(progs):
@@ -151,9 +190,10 @@ class MirGen:
     """Random well-formed (single-assignment, well-scoped) functions of the modelled fragment, in the
     mir-dump encoding with numeric names.  Conditions are 0/1-valued by construction."""
 
-    def __init__(self, rng):
+    def __init__(self, rng, plant=False):
         self.r = rng
         self.n = 0
+        self.plant = plant          # put copies of one value statement into both branches of if-else statements
 
     def fresh(self):
         self.n += 1
@@ -224,6 +264,22 @@ class MirGen:
                     continue
                 s1, i1, b1 = self.block(ints, bools, depth - 1, in_loop, r.below(4))
                 s2, i2, b2 = self.block(ints, bools, depth - 1, in_loop, r.below(4))
+                if self.plant and r.chance(2, 3):
+                    for _ in range(r.range(1, 3)):
+                        kind = r.below(10)
+                        if kind < 7 or not ints:
+                            mk = lambda x, op=r.pick(ARITH + CMP + ['DIV', 'MOD', 'MINUS']), a=self.operand(ints), b=self.operand(ints): ['bin', x, op, a, b]
+                        elif kind < 8 and bools:
+                            mk = lambda x, e=['v', r.pick(bools)]: ['not', x, e]
+                        else:
+                            mk = lambda x, kd=r.pick(['idx', 'isptr']), ty=r.below(3), ix=r.below(3), e=['v', r.pick(ints)]: ['prim', x, kd, ty, ix if kd == 'idx' else 0, e]
+                        for blk, sc in ((s1, i1), (s2, i2)):
+                            x = self.fresh()
+                            pos = r.below(len(blk) + 1)
+                            if blk and blk[-1][0] == 'brk':
+                                pos = r.below(len(blk))
+                            blk.insert(pos, mk(x))
+                            sc.append(x)
                 fas = []
                 for _ in range(r.below(3)):
                     x = self.fresh()
@@ -293,7 +349,9 @@ WITNESS_RAW_INIT = {'params': [1], 'body': [['bin', 2, 'PLUS', ['i', 1], ['i', 2
 
 def synthetic(tier, seed):
     rng = Rng(seed ^ 0x5EED)
-    return [MirGen(rng.fork()).function() for _ in range(400 if tier == 'quick' else 4000)]
+    fs = [MirGen(rng.fork()).function() for _ in range(400 if tier == 'quick' else 4000)]
+    rng2 = Rng(seed ^ 0xC5E5EED)
+    return fs + [MirGen(rng2.fork(), plant=True).function() for _ in range(150 if tier == 'quick' else 1500)]
 
 
 def real_pass_batch(funcs, pass_name):
@@ -319,7 +377,8 @@ def deep(ck, tier, seed):
     ok = check_props(ck, 'theories/C02deep/Props.v', extra_deps=['theories/C02'])
     progs = programs(tier, seed)
     res = dump(progs)
-    cases = []          # (pass, before, after, where)
+    quick = tier == 'quick'
+    cases = []          # (pass, before, after, where, supply of fresh names)
     nfun = infrag = 0
     for i, p in enumerate(progs):
         r = res.get(i)
@@ -342,11 +401,16 @@ def deep(ck, tier, seed):
             for k, pn in enumerate(CHAIN):
                 if vs[k] is None or vs[k + 1] is None or pn not in MODELLED:
                     continue
+                if quick and pn in ('dce', 'lvn') and vs[k] == vs[k + 1] and (i + nfun) % 4:
+                    continue          # quick tier: three quarters of the applications that change nothing are skipped
                 cases.append((pn, vs[k], vs[k + 1], {'program': i, 'function': f['name']}, f['fresh'][k] or []))
             rv = f.get('rounds') or [None, None]
-            if vs[0] is not None and rv[0] is not None:
+            if vs[0] is not None and rv[0] is not None and not (quick and (i + nfun) % 3):
                 # the real driver optimize_function_for_rounds (lvn only) against Passes.pipeline
                 cases.append(('pipeline', vs[0], rv[0], {'program': i, 'function': f['name']}, []))
+            if vs[0] is not None and rv[1] is not None:
+                # the real driver with cse and lvn against Passes.pipeline true true (the supply: every temporary it allocated)
+                cases.append(('pipeline+cse', vs[0], rv[1], {'program': i, 'function': f['name']}, (f.get('rounds_fresh') or [[], []])[1] or []))
             if vs[0] is not None and rv[1] is not None and len(vs) == len(FULL_CHAIN) + 1 and vs[-1] is not None:
                 # the real driver (cse + lvn) against the same passes replayed one by one in the order read from lib.rs
                 ck.count('deep:driver-order:' + ('same' if vs[-1] == rv[1] else 'DIFFERENT'))
@@ -373,14 +437,15 @@ def deep(ck, tier, seed):
             if 'after' not in r:
                 nxt.append(None)
                 continue
-            if step < len(CHAIN):
+            if step < len(CHAIN) and not (quick and pn in ('dce', 'lvn') and f0 == r['after'] and k % 4):
                 cases.append((pn, f0, r['after'], {'synthetic': k}, r.get('fresh', [])))
             nxt.append(r['after'])
         cur = nxt
-    res_r = real_pass_batch(list(syn), ROUNDS[0])
-    for k, (f0, r) in enumerate(zip(syn, res_r)):
-        if f0 is not None and r is not None and 'after' in r:
-            cases.append(('pipeline', f0, r['after'], {'synthetic': k}, []))
+    for which, pname in ((0, 'pipeline'), (1, 'pipeline+cse')):
+        res_r = real_pass_batch(list(syn), ROUNDS[which])
+        for k, (f0, r) in enumerate(zip(syn, res_r)):
+            if f0 is not None and r is not None and 'after' in r and not (quick and which == 0 and k % 3):
+                cases.append((pname, f0, r['after'], {'synthetic': k}, r.get('fresh', []) if which else []))
     # the MIR-level witness of fixed finding C02-ccp-unchanging-loop-variable-raw-bind (Props.C02deep_ccp_old2_refuted)
     wr = replay_on_real_pass(WITNESS_RAW_INIT, 'ccp')
     still = 'after' in wr and json.dumps(['v', 2]) in json.dumps(wr['after'])
